@@ -34,7 +34,7 @@ Proof. cbv zeta. repeat split; vm_compute; reflexivity. Qed.
 (* ---- non-vacuity: handlers that always raise, callbacks that raise BaseException ---- *)
 Definition h_raise : N -> msg -> unit -> hres unit := fun _ _ s => HR s false (Some (XE ValueError)).
 Definition cb_bad : cb unit :=
-  CB (fun _ _ s => (HR s false (Some XBase), true)) (fun _ _ s => HR s false (Some XBase))
+  CB KPlugin (fun _ _ s => (HR s false (Some XBase), true)) (fun _ _ s => HR s false (Some XBase))
      (fun _ s => HR s false (Some XOSError)).
 (* "001\nFOO bar\nPIN" , timeout, "G :a\n:x\n"?? no: stays parse-clean: "G :a\n" ; then "PING :b\n" *)
 Definition ex_rvs : list recv :=
@@ -129,10 +129,21 @@ Proof. cbv zeta. repeat split; vm_compute; reflexivity. Qed.
    out-filter raise KeyError with a traceback through that object (getter raises ValueError).  Every handler that
    swallows them runs Logger.exception -> collect_extra_debug_data over that object; the loop goes on *)
 Definition cb_poison : cb unit :=
-  CB (fun _ _ s => (HR s false (Some (XP KeyError ValueError)), true)) (fun _ _ s => HR s false (Some (XP KeyError ValueError)))
+  CB KPlugin (fun _ _ s => (HR s false (Some (XP KeyError ValueError)), true)) (fun _ _ s => HR s false (Some (XP KeyError ValueError)))
      (fun _ s => HR s false (Some (XP KeyError ValueError))).
 Lemma poisoned_survives :
   let ms := run_reads unit (fun _ => true) dec0 h0 h0 [cb_poison]
               [RData [70; 79; 79; 10; 80; 73; 78; 71; 32; 58; 97; 10]] (init tt) in
   alive ms = true /\ crashed ms = false /\ escapes ms = [None] /\ sent (fst (m_p ms)) = [[97]].
 Proof. cbv zeta. repeat split; vm_compute; reflexivity. Qed.
+
+(* a faulty callback of each kind (IrcCallback-, Plugin-, PluginRegexp-derived) raising from inFilter, __call__ and
+   outFilter: "FOO\nPING :a\n" is still answered *)
+Definition cb_raising (k : cbkind) : cb unit :=
+  CB k (fun _ _ s => (HR s false (Some (XE OtherError)), true)) (fun _ _ s => HR s false (Some (XE OtherError)))
+     (fun _ s => HR s false (Some (XE OtherError))).
+Lemma raising_kind_answered k :
+  let ms := run_reads unit (fun _ => true) dec0 h0 h0 [cb_raising k]
+              [RData [70; 79; 79; 10; 80; 73; 78; 71; 32; 58; 97; 10]] (init tt) in
+  alive ms = true /\ escapes ms = [None] /\ sent (fst (m_p ms)) = [[97]].
+Proof. destruct k; cbv zeta; repeat split; vm_compute; reflexivity. Qed.
